@@ -344,6 +344,20 @@ func genSelf(r *hx.Rng) *gScen {
 			return r.P(1, 3)
 		}), r.P(1, 2))
 	}
+	// peers: the other implementers of the interface carry the same by-type point, so every holder is among the candidates
+	// of its own point AND of its peers' points (a cycle through an interface)
+	if r.P(1, 2) {
+		for j := 1; j < len(g.sc.nodes); j++ {
+			for _, x := range utInfos[g.sc.nodes[j].ty].ifs {
+				if x == ifc && !utInfos[g.sc.nodes[j].ty].pp {
+					g.sc.nodes[j].slots[slot] = "w" + opt
+					if r.P(1, 3) {
+						g.sc.nodes[j].slots[sl] = "w"
+					}
+				}
+			}
+		}
+	}
 	if r.P(1, 3) {
 		g.sc.nodes[h].early = 1
 		if r.P(1, 2) {
